@@ -1,7 +1,7 @@
 #!/usr/bin/env python3
 """Developer aid: mechanical, semantics-preserving rewrites of the whole source tree (one kind per variant), applied to a scratch copy,
 followed by all 20 checks.  Any VIOLATION / ANALYSIS-ERROR beyond the base run is a false alarm of the machinery.
-usage: tools/auto_benign.py [kind ...]     kinds: rename flip rettemp kwrev"""
+usage: tools/auto_benign.py [kind ...]     kinds: rename flip rettemp kwrev ifexp2if augassign earlyret"""
 import ast, os, shutil, subprocess, sys, tempfile
 VERIF = os.path.dirname(os.path.dirname(os.path.abspath(__file__)))
 ALL = ["C%02d" % i for i in range(1, 21)]
@@ -57,7 +57,52 @@ class KwRev(ast.NodeTransformer):
         return node
 
 
-KINDS = {"rename": Rename, "flip": Flip, "rettemp": RetTemp, "kwrev": KwRev}
+class IfExp2If(ast.NodeTransformer):
+    """`x = a if c else b` / `return a if c else b`  ->  if-statement"""
+    def visit_Assign(self, node):
+        if isinstance(node.value, ast.IfExp) and len(node.targets) == 1 and isinstance(node.targets[0], ast.Name):
+            v = node.value
+            mk = lambda val: ast.Assign(targets=[ast.Name(id=node.targets[0].id, ctx=ast.Store())], value=val, lineno=node.lineno)
+            return ast.If(test=v.test, body=[mk(v.body)], orelse=[mk(v.orelse)])
+        return node
+
+    def visit_Return(self, node):
+        if isinstance(node.value, ast.IfExp):
+            v = node.value
+            return ast.If(test=v.test, body=[ast.Return(value=v.body)], orelse=[ast.Return(value=v.orelse)])
+        return node
+
+
+class AugAssign(ast.NodeTransformer):
+    """`x += y` -> `x = x + y` for plain names and attributes"""
+    def visit_AugAssign(self, node):
+        import copy
+        if isinstance(node.target, (ast.Name, ast.Attribute)):
+            load = copy.deepcopy(node.target)
+            load.ctx = ast.Load()
+            return ast.Assign(targets=[node.target], value=ast.BinOp(left=load, op=node.op, right=node.value), lineno=node.lineno)
+        return node
+
+
+class EarlyRet(ast.NodeTransformer):
+    """`if c: ...return` followed by the rest  ->  `if c: ...return else: rest`"""
+    def _fix(self, stmts):
+        out = []
+        for i, st in enumerate(stmts):
+            if isinstance(st, ast.If) and not st.orelse and st.body and isinstance(st.body[-1], (ast.Return, ast.Raise)) and i + 1 < len(stmts):
+                st.orelse = self._fix(stmts[i + 1:])
+                out.append(st)
+                return out
+            out.append(st)
+        return out
+
+    def visit_FunctionDef(self, fn):
+        self.generic_visit(fn)
+        fn.body = self._fix(fn.body)
+        return fn
+
+
+KINDS = {"rename": Rename, "flip": Flip, "rettemp": RetTemp, "kwrev": KwRev, "ifexp2if": IfExp2If, "augassign": AugAssign, "earlyret": EarlyRet}
 
 
 def run_checks(repo):
